@@ -21,6 +21,10 @@ Theorem c20_actions_one_to_one :
 Proof. exact actions_one_to_one. Qed.
 Print Assumptions c20_actions_one_to_one.
 
+Theorem c20_wrappers_call_their_action : go_wrapper_mismatches = [].
+Proof. exact wrappers_call_their_action. Qed.
+Print Assumptions c20_wrappers_call_their_action.
+
 Theorem c20_wants_are_quoted_literals : go_want_mismatches = [].
 Proof. exact wants_are_quoted_literals. Qed.
 Print Assumptions c20_wants_are_quoted_literals.
